@@ -146,6 +146,8 @@ def _assign_case(seed):
     early_polya = rng4.random() < .06
     rng5 = random.Random(seed * 32452843 + 3)
     utr_variant = not early_polya and rng5.random() < .05
+    rng6 = random.Random(seed * 49979687 + 5)
+    unspliced_over_intron = not early_polya and not utr_variant and rng6.random() < .05
     if early_polya:
         # the only isoform has two further exons behind the read's polyA tail, the last of them short (8-40 bp): a transcript end two exons
         # and hundreds of bases before the annotated one is an alternative polyA site, however short the last annotated exon is (own
@@ -170,6 +172,22 @@ def _assign_case(seed):
         isoforms, single, near = [("T1", strand, ex)], True, False
         gi = H.gene_info_of(isoforms, params.delta)
         tid, exons, kind = "T1", ex, "early_polya_two_exons_missing"
+    elif unspliced_over_intron:
+        # an unspliced read that contains a whole intron (150-900 bp) of the only isoform, with 20-60 aligned bases on either side: a retained
+        # intron whatever the matching preset (own generator and own gene)
+        k = rng6.randint(3, 5)
+        q, ex = 1000, []
+        for _ in range(k):
+            a = q + rng6.randint(150, 900)
+            b = a + rng6.randint(100, 260)
+            ex.append((a, b))
+            q = b
+        strand = rng6.choice("+-")
+        i = rng6.randrange(0, k - 1)
+        isoforms, single, near = [("T1", strand, list(ex))], True, False
+        gi = H.gene_info_of(isoforms, params.delta)
+        tid, exons, kind = "T1", ex, "unspliced_over_intron"
+        read = [(ex[i][1] - rng6.randint(20, 60), ex[i + 1][0] + rng6.randint(20, 60))]
     elif utr_variant:
         # two isoforms with one intron chain (3' UTR variants, ends 150-400 bp apart); the read is a copy of the shorter one and carries the
         # tail at its 3' end: it follows that isoform exactly (own generator and own gene)
@@ -257,13 +275,13 @@ def _assign_case(seed):
         polya = (read[-1][1] - rng4.randint(0, 3), -1, -1, -1) if strand == "+" else (-1, read[0][0] + rng4.randint(0, 3), -1, -1)
     if utr_variant:
         polya = (read[-1][1], -1, -1, -1) if strand == "+" else (-1, read[0][0], -1, -1)
-    tail = not early_polya and not utr_variant and rng.random() < .5 and read is not None and kind in ("exact", "jitter", "distant_5p_end", "intron_retention", "skipped_exon", "novel_exon", "novel_intron_in_exon")
+    tail = not early_polya and not utr_variant and not unspliced_over_intron and rng.random() < .5 and read is not None and kind in ("exact", "jitter", "distant_5p_end", "intron_retention", "skipped_exon", "novel_exon", "novel_intron_in_exon")
     if tail:
         if strand == "+":
             polya = (read[-1][1] - rng.randint(0, 3), -1, -1, -1)
         else:
             polya = (-1, read[0][0] + rng.randint(0, 3), -1, -1)
-    if read is None or len(read) < 2 and kind not in ("truncated", "partial_intron_retention"):
+    if read is None or len(read) < 2 and kind not in ("truncated", "partial_intron_retention", "unspliced_over_intron"):
         return None, []
     if kind == "truncated" and len(read) < 2:
         return None, []
